@@ -56,10 +56,17 @@ class CoreMachine(TraceMachine):
         self.epoch = 0
         self.acc = []  # (epoch, op id, kind, root, frozenset(ids), mode, loop iteration stamp)
         self.iter_stamp = ()
+        # after snax-to-func the barrier is a call of the runtime's hardware barrier
+        self.call_handlers["snax_cluster_hw_barrier"] = self._hw_barrier
         for name in ("memref.copy", "linalg.generic", "dart.operation", "dart.schedule", "dart.access_pattern", "snax_stream.streaming_region"):
             h = self.handlers.get(name)
             if h is not None:
                 self.handlers[name] = self._guarded(h)
+
+    def _hw_barrier(self, op, args):
+        self.hw_barrier_calls = getattr(self, "hw_barrier_calls", 0) + 1
+        self.on_barrier(op)
+        return []
 
     def _mine(self, op):
         if not self.role_filter:
@@ -271,7 +278,11 @@ def run_case(case, res):
     ndeal = inject_deallocs(p0, case.get("dealloc_seed"))
     R.bump(res, "deallocs_injected", ndeal)
     variants = []
-    for spec, n, rf in (("insert-sync-barrier", 2, True), (f"insert-sync-barrier,dispatch-regions{{nb_cores={case['n']}}}", case["n"], False)):
+    for spec, n, rf in (
+        ("insert-sync-barrier", 2, True),
+        (f"insert-sync-barrier,dispatch-regions{{nb_cores={case['n']}}}", case["n"], False),
+        (f"insert-sync-barrier,dispatch-regions{{nb_cores={case['n']}}},snax-to-func", case["n"], False),
+    ):
         p = p0.clone()
         try:
             run_passes_limited(c, p, spec, 10)
@@ -298,6 +309,7 @@ def run_case(case, res):
                 R.bump(res, "oracle_skipped:" + type(e).__name__)
                 continue
             R.bump(res, "core_runs", n)
+            R.bump(res, "hw_barrier_calls_executed", sum(getattr(m, "hw_barrier_calls", 0) for m in runs))
             res["compared"] += 1
             v, classes = analyse(runs, res)
             classes_all |= classes
